@@ -18,7 +18,17 @@ shape, loop form and numpy spellings):
     positional / keyword arguments are placed on a signature, `**name` of a literal dict is expanded, hstack / vstack / concatenate are one
     cat(axis, parts...), `x.reshape(-1, 1)` = `x[:, None]` = col(x), logical_and / & etc. are the boolean algebra, max / np.maximum and
     min / np.minimum are decided from the facts, int(np.ceil(x)) = math.ceil(x), functions of the same module (and local functions) are
-    followed on the argument values.
+    followed on the argument values;
+  * (pass 3) nothing that may write is skipped: a store through a view (X[:, i] held by a local, a row of a loop over X.T) is composed by the index algebra into a
+    store into X, a store through another NAME of an array updates that array (values carry no identity: which array is meant is read from the statement that made
+    the view / the alias; if that leaves several candidates they all become unknown), a method the engine does not know makes its object unknown, ufuncs with
+    out= / where= are masked stores; lambdas are values that can be applied (immediately, through a local, chosen by a conditional expression), locals that hold a
+    function / a library routine are called by value, module-level namedtuple classes, literal dict locals, SimpleNamespace locals are followed;
+    itertools.product / a generator expression as a loop iterable are nested loops; zip stops at the shortest argument; one boolean normal form with negation pushed
+    to the sign leaves (De Morgan; not (e < 0) = (-e <= 0) over the reals); sign of products of factors whose signs the regime's facts give; ceiling-division and
+    shift idioms, min of reciprocals, np.pad / np.append / np.r_ / add.reduce / add.accumulate / logical_and.reduce / clip(min=, max=) have their canonical values;
+  * finite-world mode (Shared.concrete): `while` loops whose test has a truth value each time it is reached are executed (break / continue / else), enumerate / zip of
+    concrete sequences are unrolled, zeros_like / full / x.size / x.shape[0] of concrete arrays are known.
 """
 from __future__ import annotations
 
@@ -685,6 +695,25 @@ class V:
             r = self._last_extent(v)
             if r is not None:
                 return r
+        if unfn(v) is None and k in (1, -1) and _strsym(v) is None and self.rank(v) == 2:
+            # an element-wise expression of matrices, column vectors (extent 1: broadcast) and scalars: the number of columns is the one its matrices agree on
+            exts = []
+            for p_ in (v.n, v.d):
+                for a in p_.atoms():
+                    av = F.Rat(F.Poly.atom(a))
+                    r = self.rank(av)
+                    if r is None:
+                        return None
+                    if r == 0 or un(av, "col") is not None:
+                        continue
+                    if r == 1:
+                        exts.append(self.np_call("len", [av], {}, None))
+                    else:
+                        d = self.shape_dim(av, k) if unfn(av) is not None else None
+                        exts.append(d if d is not None else F.fn("idx", F.fn("attr:shape", av), F.const(1)))
+            if not exts:
+                return F.const(1)
+            return exts[0] if all(eq(x, exts[0]) for x in exts[1:]) else None
         for nm in ("zeros", "ones", "empty"):
             z = un(v, nm)
             if z is not None:
@@ -1836,6 +1865,16 @@ class V:
                 self._rec("np.concatenate", [PyTuple((blk(last[0]), pos[0], blk(last[1])))], {"axis": F.const(-1)}, node, val, None)
                 return val
             return Unknown("np.pad with a pad width that is not understood")
+        if name == "np.insert" and n == 3 and set(kw) <= {"axis"} and all(israt(x) for x in pos) and int_of(pos[1]) == 0 and const_of(pos[2]) is not None:
+            # np.insert(X, 0, c, axis=0): a row of the constant c (1-D: one element) in front of X
+            r_ = self.rank(pos[0])
+            ax = kw.get("axis")
+            if r_ == 2 and ax is not None and int_of(ax) == 0:
+                ncol = self.mk_idx(F.fn("attr:shape", pos[0]), F.const(1))
+                row = self.np_call("np.zeros", [PyTuple((F.const(1), ncol))], {}, node) if const_of(pos[2]) == 0 else pos[2] * self.np_call("np.ones", [PyTuple((F.const(1), ncol))], {}, node)
+                return self.np_call("np.vstack", [PyTuple((row, pos[0]))], {}, node)
+            if r_ == 1 and (ax is None or int_of(ax) == 0):
+                return self.np_call("np.hstack", [PyTuple((pos[2], pos[0]))], {}, node)
         if name == "np.append" and n == 2 and set(kw) == {"axis"} and all(israt(x) for x in pos):
             return self.np_call("np.concatenate", [PyTuple(pos)], kw, node)          # np.append(a, b, axis=k) with an axis is the concatenation
         if self.sh.concrete and name in ("np.zeros", "np.ones", "np.empty") and n >= 1 and int_of(pos[0]) is not None and 0 <= int_of(pos[0]) <= 64:
